@@ -56,6 +56,10 @@ def run(ctx):
             reqs = [cc.enc_req(cipher=r.choice([0, 4, 2]), mac=r.choice([3, 5]), zip_=0, data=b"id-test")]
             if r.random() < .25 or (u, g) in [(0, 0), (2 ** 32 - 2, 2 ** 32 - 2)]:
                 reqs += crafted(r, u, g)
+            if r.random() < .2 or (u, g) in [(1, 1), (2 ** 31, 2 ** 31)]:
+                # the header's retry byte is client-controlled too: whatever it says (in range, at the limit, beyond it), a
+                # credential that comes back - with or without an error code - records the attested identity
+                reqs += [cc.enc_req(cipher=0, mac=5, zip_=0, data=b"id-retry", retry=k) for k in (1, 5, 6, r.choice([7, 100, 255]))]
             for q in reqs:
                 dpeer = (31337, 31338)
                 if isinstance(q, tuple):
@@ -92,6 +96,10 @@ def run(ctx):
                 return None
             if not (rsp.ok and rsp.kind == "enc"):
                 return "no well-formed encode reply"
+            if rsp.error_num != 0 and rsp.data:
+                f = R.parse(rsp.data, K.MK, K.DK) if variant.startswith("real") else None
+                who = "" if not isinstance(f, dict) else " recording identity %d:%d (kernel attested %d:%d)" % (f["uid"], f["gid"], w[0], w[1])
+                return "an encode request that was refused (error %d) was nevertheless answered with a credential%s" % (rsp.error_num, who)
             if rsp.error_num == 0 and variant.startswith("real"):
                 f = R.parse(rsp.data, K.MK, K.DK)
                 if isinstance(f, str):
